@@ -70,13 +70,12 @@ Theorem goerror_catchable : forall d e act fin,
     EvCatch d (VGoErr (fresh_goerr (S d)) e) :: fin_ev d (mkJS (Some act) fin).
 Proof. exact Proofs.goerror_catchable. Qed.
 
-(* 3. uncatchable_invisible.  An InterruptedError / StackOverflowError (possibly wrapped by fmt.Errorf
-      "%w" any number of times) reaches no JS catch, runs no JS finally, triggers no rejection handler, in
-      any chain whose native frames do not errors.Join it (see uncatchable_join_refuted); it leaves the
-      chain as the same base error (same interrupt value). *)
+(* 3. uncatchable_invisible.  An InterruptedError / StackOverflowError — possibly wrapped by fmt.Errorf "%w"
+      and/or errors.Join any number of times (fix 63ed9d0: isUncatchableException uses errors.As) — reaches no JS
+      catch, runs no JS finally, triggers no rejection handler, in ANY chain (every frame kind, every handler);
+      it leaves the chain as the same base error (same interrupt value). *)
 Theorem uncatchable_invisible : forall fs d e,
   hard_unc e = true ->
-  forallb no_join fs = true ->
   let '(s, ev) := unwind d fs (SPanic (PVErr e)) in
   js_events ev = [] /\
   exists e', s = SPanic (PVErr e') /\ hard_unc e' = true /\ gerr_base e' = gerr_base e.
@@ -101,18 +100,16 @@ Theorem uncatchable_invisible_case : forall c e,
   init_signal (length (c_pre c) + match c_post c with Some post => length post | None => 0 end) (c_thrower c)
     = SPanic (PVErr e) ->
   hard_unc e = true ->
-  forallb no_join (c_pre c) = true ->
-  match c_post c with Some post => forallb no_join post = true | None => True end ->
   js_events (fst (propagate c)) =
     match c_post c with None => [] | Some _ => js_events (snd (unwind 0 (c_pre c) SNormal)) end /\
   catch_obs (fst (propagate c)) = [].
 Proof. exact Proofs.uncatchable_invisible_case. Qed.
 
-(* 3d. the carve-out is real on the current tree: a native that returns errors.Join(err, x) for a
-       StackOverflowError makes it a catchable GoError (isUncatchableException follows errors.Unwrap only) *)
-Theorem uncatchable_join_refuted : exists fs,
-  catch_obs (snd (unwind 0 fs (SPanic (PVErr (GErr [] BSO))))) <> [].
-Proof. exact Proofs.uncatchable_join_refuted. Qed.
+(* 3d. (was uncatchable_join_refuted, finding C14-N1, repaired by 63ed9d0) a native that returns
+       errors.Join(err, x) for an uncatchable err keeps it uncatchable: wrapReflectFunc re-panics it *)
+Theorem join_stays_uncatchable : forall d s e,
+  hard_unc e = true -> reflect_ret d (join s e) = PVErr (join s e) /\ hard_unc (join s e) = true.
+Proof. exact Proofs.join_stays_uncatchable. Qed.
 
 (* 4. foreign_propagates.  A non-goja panic crosses ANY chain unchanged: no JS handler, no finally, no Go
       caller's error path sees it, nothing swallows it, and every entry convention lets it reach the
@@ -157,7 +154,7 @@ Print Assumptions goerror_catchable.
 Print Assumptions uncatchable_invisible.
 Print Assumptions uncatchable_host.
 Print Assumptions uncatchable_invisible_case.
-Print Assumptions uncatchable_join_refuted.
+Print Assumptions join_stays_uncatchable.
 Print Assumptions foreign_propagates.
 Print Assumptions foreign_host.
 Print Assumptions plain_error_panic_propagates.
